@@ -126,8 +126,8 @@ Inductive value :=
 | VString (s : str)
 | VFun (f : str) (arg : str) (whole : str).   (* name(arg): handled by the transform layer *)
 
-Inductive parse_res (A : Type) := POk (a : A) | PExit1.   (* exit(1) with a diagnostic *)
-Arguments POk {A} _. Arguments PExit1 {A}.
+Inductive parse_res (A : Type) := POk (a : A) | PExit1 (* exit(1) with a diagnostic *) | PAbort (* uncaught exception / crash inside a transform *).
+Arguments POk {A} _. Arguments PExit1 {A}. Arguments PAbort {A}.
 
 Definition bytes_eqb_v (a b : bytes) : bool := if list_eq_dec Z.eq_dec a b then true else false.
 
@@ -203,7 +203,7 @@ Definition parse_args_str (s : str) (len : nat) : parse_res (list str) := pa_loo
 (* ------------------------------------------------------------ Value(const char-ptr) and parse_args(vector) *)
 Section Classify.
 (* the transform layer: [do_exec fun arg_value] = Some result for a known inline function *)
-Variable do_exec : str -> value -> option value.
+Variable do_exec : str -> value -> option (parse_res value).
 
 Definition last_ch (v : str) : Z := last v 0.
 
@@ -226,9 +226,11 @@ Fixpoint classify (fuel : nat) (v : str) : parse_res value :=
     else if (1 <? vlen)%nat && (hd 0 v =? CH_LBR) && (last_ch v =? CH_RBR) then
       match parse_args_str (tl v) (vlen - 2) with
       | PExit1 => PExit1
+      | PAbort => PAbort
       | POk toks =>
           match parse_vec f toks [] false [] with
           | PExit1 => PExit1
+          | PAbort => PAbort
           | POk vals => POk (VData (concat (map value_emit vals)))
           end
       end
@@ -241,8 +243,9 @@ Fixpoint classify (fuel : nat) (v : str) : parse_res value :=
                   let arg := removelast rest in
                   match classify f arg with
                   | PExit1 => Some PExit1
+                  | PAbort => Some PAbort
                   | POk av => match do_exec name av with
-                              | Some r => Some (POk r)
+                              | Some r => Some r
                               | None => None          (* unknown function: expression left as is *)
                               end
                   end
@@ -283,6 +286,7 @@ with parse_vec (fuel : nat) (args : list str) (accum : str) (accing : bool) (acc
         if negb (length v =? 0)%nat && (last_ch v =? CH_RBR) then
           match classify f accum' with
           | PExit1 => PExit1
+          | PAbort => PAbort
           | POk x => parse_vec f rest [] false (x :: acc)
           end
         else parse_vec f rest accum' true acc
@@ -290,6 +294,7 @@ with parse_vec (fuel : nat) (args : list str) (accum : str) (accing : bool) (acc
       else if (hd 0 v =? CH_LBR) && negb (last_ch v =? CH_RBR) then parse_vec f rest v true acc
       else match classify f v with
            | PExit1 => PExit1
+           | PAbort => PAbort
            | POk x => parse_vec f rest [] false (x :: acc)
            end
     end
@@ -301,13 +306,14 @@ Definition total_len (args : list str) : nat := fold_left (fun n a => (n + lengt
 Definition btcc (args : list str) : parse_res bytes :=
   match parse_vec (2 * total_len args) args [] false [] with
   | PExit1 => PExit1
+  | PAbort => PAbort
   | POk vals => POk (concat (map value_emit vals))
   end.
 
 (* Value(script_str).data_value(): how btcdeb reads its script / stack arguments *)
 Definition value_of_string (v : str) : parse_res value := classify (2 * (length v + 4)) v.
 Definition arg_data (v : str) : parse_res bytes :=
-  match value_of_string v with POk x => POk (value_data_value x) | PExit1 => PExit1 end.
+  match value_of_string v with POk x => POk (value_data_value x) | PExit1 => PExit1 | PAbort => PAbort end.
 End Classify.
 
 (* ------------------------------------------------------------ Instance::eval token parser *)
